@@ -169,6 +169,9 @@ inductive Op
   | revoke (s : Nat)
   /-- write of the `Breadcrumb` attribute of General Commissioning -/
   | bcw (s v : Nat)
+  /-- an interaction over session `s` that does not touch the administrative state (handler-level
+  path: group key map / binding / user label / node label writes, subscribe): only the IM prologue runs -/
+  | ext (s : Nat)
   | tick (secs : Nat)
   | poll
   | flush
@@ -640,12 +643,13 @@ def sessOp (cfg : Cfg) (n : Node) (sid : Nat) (mode : Mode) : Op → Node × Sta
   | .bcw _ v =>
     -- gen_comm.rs:282 `set_breadcrumb`: no fail-safe check; reset by disarm / expiry
     ok { n with bc := v }
+  | .ext _ => ok n
   | _ => (n, .err "bad")
 
 def isSessOp : Op → Option Nat
   | .openW s | .arm s _ | .csr s _ | .root s _ | .addnoc s _ _ _ _ _ | .updnoc s _ _ | .acl s _
   | .grp s _ | .label s _ | .net s _ | .rmnet s _ | .complete s | .rmfab s _ | .revoke s
-  | .bcw s _ => some s
+  | .bcw s _ | .ext s => some s
   | _ => none
 
 def step (cfg : Cfg) (n : Node) (op : Op) : Node × Status :=
